@@ -19,3 +19,17 @@ package pptx
 //@   ensures handle_released: !isnil(old(r.zipReader)) ==> closed == 1
 //@   ensures nothing_left_to_close: isnil(r.zipReader)
 //@   ensures second_close_is_a_no_op: isnil(old(r.zipReader)) ==> closed == 0 && !err
+
+// ---- C15: list items keep their kind and depth: an auto-numbered paragraph is an ordered item at every level, a
+// character bullet or an indented paragraph without numbering a bullet item; buNone switches both off ----
+//@ func (*Reader) extractParagraph results (res)
+//@   property C15
+//@   flags nosafety
+//@   requires !isnil(p)
+//@   ensures level_kept: !isnil(p.PPr) ==> res.Level == p.PPr.Lvl
+//@   ensures numbered_iff_auto_numbered: res.IsNumbered <==> (!isnil(p.PPr) && isnil(p.PPr.BuNone) && !isnil(p.PPr.BuAutoNum))
+//@   ensures bullet_iff_char_or_indented_without_numbering: res.IsBullet <==> (!isnil(p.PPr) && isnil(p.PPr.BuNone) && isnil(p.PPr.BuAutoNum) && (!isnil(p.PPr.BuChar) || p.PPr.Lvl > 0))
+//@   loop 0:
+//@     invariant para.IsNumbered == entry(para.IsNumbered) && para.IsBullet == entry(para.IsBullet) && para.Level == entry(para.Level)
+//@   loop 1:
+//@     invariant para.IsNumbered == entry(para.IsNumbered) && para.IsBullet == entry(para.IsBullet) && para.Level == entry(para.Level)
